@@ -22,4 +22,5 @@ CONSTANTS
   Alphabet = "small"
   Cfgs = {"repaired"}
   Emit = FALSE
+  TwoPhase = FALSE
 INVARIANTS InstalledEqualsLatest VerifiedIffInstalled StopsExactlyAtLatest OptionsHonouredWheneverSet InSync
